@@ -273,7 +273,9 @@ impl FileSystem {
     pub(crate) async fn prepare_file_write<'a>(&self, path: &'a Path) -> Result<FileWriter<'a>> {
         let tmp_name = format!(".tmp.{}.internal.part", self.tmp_file_counter.fetch_add(1, Ordering::SeqCst));
         let tmp_path = self.resolve_abs_path(tmp_name)?;
-        let file = File::create(&tmp_path).await?;
+        // created before the first await point: if the request is cancelled while the file is being created,
+        // there would be no `FileWriter` yet to remove it
+        let file = File::from_std(std::fs::File::create(&tmp_path)?);
         let writer = BufWriter::new(file);
         Ok(FileWriter {
             tmp_path,
